@@ -231,7 +231,7 @@ func runC14(c *Ctx) {
 		"non-trivial = at least 2 transfers precede a CLOSE and (request server) at least 2 backend calls were blocked at once when gates were opened or (os) a transfer of 100000+ bytes")
 	nProg, scheds := 300, 3
 	if c.Thorough() {
-		nProg, scheds = 2000, 5
+		nProg, scheds = 1500, 5
 	}
 	stalls, rounds, mispred, overtaken := 0, 0, 0, 0
 	for pi := 0; pi < nProg; pi++ {
